@@ -6,14 +6,14 @@ Open Scope Q_scope.
 
 Lemma witness_values :
   let '(ps, xs, o) := nd_witness in
-  Qeq_bool (inflow2 ps (refine_axis amid xs) (2 * o) 6 4) (23 # 36) = true
+  Qeq_bool (inflow2 ps (refine_axis amid xs) (refine_axis amid xs) (2 * o) 6 4) (23 # 36) = true
   /\ Qeq_bool (q_entry2 amid (step_mass2 ps) xs xs o 3 2) (1 # 4) = true
-  /\ Qeq_bool (inflow2_joint ps (refine_axis amid xs) (2 * o) 6 4) (1 # 4) = true.
+  /\ Qeq_bool (inflow2_joint ps (refine_axis amid xs) (refine_axis amid xs) (2 * o) 6 4) (1 # 4) = true.
 Proof. vm_compute. repeat split. Qed.
 
 Theorem telescoping_nd_refuted : exists (ps : list (Q * Q * Q * Q * Q)) (xs : list Q) (o j1 j2 : nat),
   admissible xs o 1 /\ Forall (fun p => 0 <= snd p) ps /\ (j1, j2) <> (o, o)
-  /\ ~ inflow2 ps (refine_axis amid xs) (2 * o) (2 * j1) (2 * j2) == q_entry2 amid (step_mass2 ps) xs xs o j1 j2.
+  /\ ~ inflow2 ps (refine_axis amid xs) (refine_axis amid xs) (2 * o) (2 * j1) (2 * j2) == q_entry2 amid (step_mass2 ps) xs xs o j1 j2.
 Proof.
   exists (fst (fst nd_witness)), (snd (fst nd_witness)), (snd nd_witness), 3%nat, 2%nat.
   split; [|split; [|split]].
@@ -26,7 +26,7 @@ Qed.
 Theorem telescoping_nd_joint_instance :
   let '(ps, xs, o) := nd_witness in
   forallb (fun j1 => forallb (fun j2 => (Nat.eqb j1 o && Nat.eqb j2 o) ||
-     Qeq_bool (inflow2_joint ps (refine_axis amid xs) (2 * o) (2 * j1) (2 * j2)) (q_entry2 amid (step_mass2 ps) xs xs o j1 j2))
+     Qeq_bool (inflow2_joint ps (refine_axis amid xs) (refine_axis amid xs) (2 * o) (2 * j1) (2 * j2)) (q_entry2 amid (step_mass2 ps) xs xs o j1 j2))
      (seq 0 (length xs))) (seq 0 (length xs)) = true.
 Proof. vm_compute. reflexivity. Qed.
 
@@ -37,30 +37,30 @@ Section NdStructure.
   Variable marg : nat -> Q -> Q -> Q.
 
   (* copy rule: a fine increment with both coordinates even (a coarse-grid state) is returned unchanged, for every uniform *)
-  Theorem copy_rule_2d xs o i1 i2 u : (i1 mod 2 = 0)%Z -> (i2 mod 2 = 0)%Z ->
-    coupling_state2 mid mass2 marg xs o i1 i2 u
-    = Some (nthq xs (Z.to_nat (Z.of_nat o + i1)), nthq xs (Z.to_nat (Z.of_nat o + i2))).
+  Theorem copy_rule_2d xs ys o i1 i2 u : (i1 mod 2 = 0)%Z -> (i2 mod 2 = 0)%Z ->
+    coupling_state2 mid mass2 marg xs ys o i1 i2 u
+    = Some (nthq xs (Z.to_nat (Z.of_nat o + i1)), nthq ys (Z.to_nat (Z.of_nat o + i2))).
   Proof. intros E1 E2. unfold coupling_state2. rewrite E1, E2. reflexivity. Qed.
 
   (* adjacency: whatever the uniform, an even coordinate is kept and an odd coordinate moves to one of its two neighbours
      on the fine axis (which are coarse-grid states because the origin index of the refined grid is even) *)
-  Theorem adjacency_2d xs o i1 i2 u v1 v2 :
-    coupling_state2 mid mass2 marg xs o i1 i2 u = Some (v1, v2) ->
+  Theorem adjacency_2d xs ys o i1 i2 u v1 v2 :
+    coupling_state2 mid mass2 marg xs ys o i1 i2 u = Some (v1, v2) ->
     let p1 := Z.to_nat (Z.of_nat o + i1) in let p2 := Z.to_nat (Z.of_nat o + i2) in
     ((i1 mod 2 = 0)%Z -> v1 = nthq xs p1) /\ ((i1 mod 2 <> 0)%Z -> v1 = nthq xs (p1 - 1) \/ v1 = nthq xs (p1 + 1))
-    /\ ((i2 mod 2 = 0)%Z -> v2 = nthq xs p2) /\ ((i2 mod 2 <> 0)%Z -> v2 = nthq xs (p2 - 1) \/ v2 = nthq xs (p2 + 1)).
+    /\ ((i2 mod 2 = 0)%Z -> v2 = nthq ys p2) /\ ((i2 mod 2 <> 0)%Z -> v2 = nthq ys (p2 - 1) \/ v2 = nthq ys (p2 + 1)).
   Proof.
     unfold coupling_state2. cbv zeta.
     set (p1 := Z.to_nat (Z.of_nat o + i1)). set (p2 := Z.to_nat (Z.of_nat o + i2)).
     destruct (Z.eqb_spec (i1 mod 2) 0) as [E1|E1]; destruct (Z.eqb_spec (i2 mod 2) 0) as [E2|E2].
     - intros H; injection H as <- <-. repeat split; intros; try reflexivity; contradiction.
-    - destruct (corner1 mid marg 1 xs p2) as [[pl pr]|]; [|discriminate].
+    - destruct (corner1 mid marg 1 ys p2) as [[pl pr]|]; [|discriminate].
       destruct (Qle_bool u (0 + pl)); [|destruct (Qle_bool u (0 + pl + pr)); [|discriminate]];
         intros H; injection H as <- <-; repeat split; intros; try reflexivity; try contradiction; tauto.
     - destruct (corner1 mid marg 0 xs p1) as [[pl pr]|]; [|discriminate].
       destruct (Qle_bool u (0 + pl)); [|destruct (Qle_bool u (0 + pl + pr)); [|discriminate]];
         intros H; injection H as <- <-; repeat split; intros; try reflexivity; try contradiction; tauto.
-    - destruct (corner2 mid mass2 xs p1 p2) as [cs|]; [|discriminate].
+    - destruct (corner2 mid mass2 xs ys p1 p2) as [cs|]; [|discriminate].
       destruct (first_corner u 0 cs) as [[d1 d2]|]; [|discriminate].
       intros H; injection H as <- <-. unfold step_idx.
       repeat split; intros; try contradiction; destruct d1, d2; tauto.
@@ -124,17 +124,17 @@ Section NdCorners.
     mass2 (a1, a2) (b1, b2) == mass2 (a1', a2') (b1', b2').
 
   (* both axes odd: the four corner probabilities (joint quarter masses) are probabilities and sum to 1 *)
-  Theorem corner2_is_law xs p1 p2 cs : incr xs -> (1 <= p1)%nat -> (p1 + 1 < length xs)%nat -> (1 <= p2)%nat -> (p2 + 1 < length xs)%nat ->
+  Theorem corner2_is_law xs ys p1 p2 cs : incr xs -> incr ys -> (1 <= p1)%nat -> (p1 + 1 < length xs)%nat -> (1 <= p2)%nat -> (p2 + 1 < length ys)%nat ->
     (cell_hi amid xs p1 < 0 \/ 0 < cell_lo amid xs p1) ->
-    corner2 amid mass2 xs p1 p2 = Some cs ->
+    corner2 amid mass2 xs ys p1 p2 = Some cs ->
     Forall (fun c => 0 <= snd c) cs /\ qsum (map (fun c => snd c) cs) == 1.
   Proof.
-    intros Hi H1 Hp1 H2 Hp2 Hs. unfold corner2.
+    intros Hi Hiy H1 Hp1 H2 Hp2 Hs. unfold corner2.
     destruct (half_left xs p1 Hi H1 ltac:(lia)) as (L1 & L2 & L3). destruct (half_right xs p1 Hi Hp1) as (R1 & R2 & R3).
-    destruct (half_left xs p2 Hi H2 ltac:(lia)) as (M1 & M2 & M3). destruct (half_right xs p2 Hi Hp2) as (S1 & S2 & S3).
+    destruct (half_left ys p2 Hiy H2 ltac:(lia)) as (M1 & M2 & M3). destruct (half_right ys p2 Hiy Hp2) as (S1 & S2 & S3).
     set (lo1 := cell_lo amid xs p1) in *. set (hi1 := cell_hi amid xs p1) in *.
-    set (lo2 := cell_lo amid xs p2) in *. set (hi2 := cell_hi amid xs p2) in *.
-    set (x1 := nthq xs p1) in *. set (x2 := nthq xs p2) in *.
+    set (lo2 := cell_lo amid ys p2) in *. set (hi2 := cell_hi amid ys p2) in *.
+    set (x1 := nthq xs p1) in *. set (x2 := nthq ys p2) in *.
     set (T := mass2 (lo1, lo2) (hi1, hi2)).
     destruct (Qeq_bool T 0) eqn:E; [discriminate|]. apply Qeq_bool_neq in E.
     intros H; injection H as <-. cbn [map fst snd]. unfold quarter.
